@@ -11,6 +11,7 @@ package main
 import (
 	"bufio"
 	"fmt"
+	"math"
 	"os"
 	"strings"
 
@@ -540,12 +541,35 @@ func (g *gctx) swapVertices(n *node) bool {
 	}
 	i := g.r.Intn(k)
 	j := (i + 1 + g.r.Intn(k-1)) % k
-	if m.pts[i] == m.pts[j] {
-		return false
+	// all vertices of the list pairwise at least 3 tol apart (near-tie rings have two vertices
+	// tol/2 apart: exchanging around them can be a rotation within tol — false alarm seed 3)
+	for x := 0; x < k; x++ {
+		for y := x + 1; y < k; y++ {
+			if math.Abs(m.pts[x].X-m.pts[y].X) < 3*g.u() && math.Abs(m.pts[x].Y-m.pts[y].Y) < 3*g.u() {
+				return false
+			}
+		}
 	}
 	m.pts[i], m.pts[j] = m.pts[j], m.pts[i]
 	if m.kind == kRing {
 		m.pts[len(m.pts)-1] = m.pts[0]
+	}
+	return true
+}
+
+// move ALL vertices of one point list (a whole member, rigidly) by the same displacement
+func (g *gctx) shiftMember(n *node) bool {
+	m := g.pick(n.collect(func(m *node) bool { return hasPts(m) && len(m.pts) > 0 }))
+	if m == nil {
+		return false
+	}
+	dx, dy := g.big(), g.big()
+	if g.r.Intn(3) == 0 {
+		dx = 0
+	}
+	for i := range m.pts {
+		m.pts[i].X += dx
+		m.pts[i].Y += dy
 	}
 	return true
 }
@@ -805,6 +829,35 @@ func (g *gctx) bigCases(out *bufio.Writer, huge bool) {
 		do("displace:F", g.displace)
 		do("vdelete:F", g.deleteVertex)
 		do("vswap:F", g.swapVertices)
+		// one vertex displaced at chosen positions of the longest point list (second, third, middle,
+		// middle+1, last-but-one, last of the cycle): odd and even indices, both ends
+		long := a
+		a.walk(func(m *node) {
+			if hasPts(m) && len(m.pts) > len(long.pts) {
+				long = m
+			}
+		})
+		if k := len(long.pts); k >= 64 {
+			path := a.collect(func(m *node) bool { return true })
+			li := 0
+			for i, m := range path {
+				if m == long {
+					li = i
+				}
+			}
+			for _, idx := range []int{1, 2, k / 2, k/2 + 1, k - 3, k - 2} {
+				idx := idx
+				do("displace:F", func(b *node) bool {
+					m := b.collect(func(m *node) bool { return true })[li]
+					if g.r.Bool() {
+						m.pts[idx].X += g.big()
+					} else {
+						m.pts[idx].Y += g.big()
+					}
+					return true
+				})
+			}
+		}
 		do("delete:F", g.deleteMember)
 		do("insert:F", g.insertMember)
 	}
@@ -1142,6 +1195,8 @@ func gen(seed uint64, tier string) {
 		do("vinsert:F", g.insertVertex)
 		do("vdelete:F", g.deleteVertex)
 		do("type:F", g.changeType)
+		do("mshift:F", g.shiftMember)
+		do("mshift:F", func(b *node) bool { g.permute(b); g.rotate(b); g.perturb(b); return g.shiftMember(b) })
 		do("vswap:F", g.swapVertices)
 		do("vswap:F", func(b *node) bool {
 			if !g.swapVertices(b) {
@@ -1218,13 +1273,13 @@ func gen(seed uint64, tier string) {
 			// (kinds rotate over the calls; every kind gets every count group at least twice per run)
 			for kind := 0; kind < 6; kind++ {
 				d := (kind - bigCalls%6 + 6) % 6
-				if d < 4 || tier == "thorough" {
+				if d < 4 {
 					g.dupBigCases(out, kind, []int{65, 66, 67, 70}[(bigCalls+kind)%4], false)
 				}
-				if d >= 2 || tier == "thorough" {
+				if d >= 2 {
 					g.dupBigCases(out, kind, []int{5, 63, 64, 33}[(bigCalls+kind)%4], false)
 				}
-				if d < 3 || tier == "thorough" {
+				if d < 3 {
 					g.dupBigCases(out, kind, []int{129, 130, 128, 131}[(bigCalls+kind)%4], tier != "thorough")
 				}
 			}
